@@ -115,6 +115,19 @@ CHECKS = {
             "seeded-order subclass before any library loads. One fork per history from a worker that never imports "
             "mpilot.",
             "DESIGN.md 5/C19"),
+    "C20": ("histsim_params", "exploration",
+            "deterministic simulation of call histories: seeded sequences of clean / clean-again / clean-the-cleaned / "
+            "program-run / file-system-mutation operations on live parameter objects inside a real program on a "
+            "simulated disk; reference type table, repeat-equality, idempotence, deep-snapshot purity and "
+            "zero-execute / zero-write event-trace conditions",
+            "Seeded exploration of histories over every parameter class and configuration (nested lists to depth 3) and "
+            "raw values of every kind the parser or API delivers, with absolute / relative / no working directory. "
+            "Each clean must return the documented typed value or raise a parameter error, equal raw values must clean "
+            "to equal values under an equal file-system/program state, cleaned values must clean to themselves, and "
+            "no clean may alter its argument or the program, execute a command or write a file.",
+            "The documented type table is a reference function in the engine; forms the documentation does not settle "
+            "are judged only on exception class and purity. SimFS stands in for the disk.",
+            "DESIGN.md 5/C20"),
 }
 
 PENDING = {}
